@@ -51,6 +51,10 @@ Checks(e) ==
          \cup Flag(e.res # "ok" \/ (e.c.point \in {"loworder", "noncanonical"} => e.failed), "C19_dh_accepts_low_order_point")
          \cup Flag(e.res # "ok" \/ e.equiv, "C19_dh_point_not_reduced_or_masked_as_rfc7748_requires")
          \cup Flag(e.res # "ok" \/ e.wrappers, "C19_key_type_methods_differ_from_the_primitive_functions")
+    \* public-key derivation = multiplication of the base point, for thousands of scalars in one event
+    [] e.ev = "sweep" ->
+         Flag(e.panics = 0, "C19_dh_panic")
+         \cup Flag(e.errors = 0 /\ e.mismatches = 0, "C19_public_key_derivation_is_not_base_point_multiplication")
     [] e.ev = "erase" ->
          Flag(e.released_dirty = 0, "C20_secret_bytes_not_erased_at_release")
          \cup Flag(e.not_released = 0, "C20_container_memory_not_released_or_moved")
